@@ -171,6 +171,14 @@ func genC05(r *wire.Rng) *History {
 			c.K = 0 // the stream dies before any response: the first requests may or may not have been read
 		}
 		c.Fate = wire.Pick(r, []string{"applied", "applied", "lost", "failed-send"})
+		if c.Mode == "initial" && c.K > 0 && r.Chance(1, 4) {
+			// the K-th response (an answer to a REQUEST) stalls in Send; a change is made meanwhile, its push is taken
+			// off the queue and waits for the connection's loop; then the stream dies
+			c.Fate = "stalled"
+			o := genOp(r, w, &clock)
+			w.note(o)
+			c.Trigger = []Op{o}
+		}
 	}
 	n := r.Intn(5)
 	for i := 0; i < n; i++ {
@@ -474,6 +482,34 @@ func runC05(h *History, stt *stats) result {
 		for _, e := range both {
 			e.connect(st, connectOpts{})
 			e.disconnect()
+		}
+	} else if c.Mode == "initial" && c.Fate == "stalled" {
+		stt.Cuts["response-stalled-in-send"]++
+		for _, e := range both {
+			e.connect(st, connectOpts{cutAfter: c.K, cutStall: true})
+		}
+		deadline := time.Now().Add(3 * time.Second)
+		for !(sotw.isStalled() && delta.isStalled()) && time.Now().Before(deadline) {
+			time.Sleep(pollEvery)
+		}
+		for _, o := range c.Trigger {
+			if err := st.apply(w, o); err != nil {
+				return result{Clause: "harness-apply-error", Detail: map[string]any{"op": o, "err": err.Error()}}
+			}
+			stt.Ops[o.K]++
+		}
+		// wait until the push for the stalled connections has been taken off the queue (it now waits for their loops)
+		deadline = time.Now().Add(3 * time.Second)
+		for time.Now().Before(deadline) {
+			_, q, _ := xds.VerifC02ServerState(st.s.Discovery)
+			if len(q.Processing) >= 2 {
+				stt.Cuts["push-waiting-for-a-stalled-connection"]++
+				break
+			}
+			time.Sleep(pollEvery)
+		}
+		for _, e := range both {
+			e.releaseStall()
 		}
 	} else if c.Mode == "initial" {
 		for _, e := range both {
